@@ -67,7 +67,7 @@ def machine_cfgs(seed, quick):
     rng = random.Random(seed * 7919 + 101)
     out = []
     routes = [dict(), dict(alpha0=2e-3), dict(fs=30e3), dict(fs=61e3)]
-    bends = [None, 1.5, 5.559, 8.0]
+    bends = [None, 0.75, 5.559, 8.0]
     combos = [(b, r) for b in bends for r in routes]
     if quick:
         # every explicit radius with every route; the default radius with two of them
@@ -454,6 +454,12 @@ def check_cfg(ctx, tg, c, dis, keep=None):
             return
         # a first derive to know the padded sizes (from the configuration as the program saw it)
         P = {k[1]: h.attr(k[0], k[1]) for k in h.attrs if k[0] == "/Info/Parameters"}
+        if "GridSize" not in P or "/Info/AxisValues_t" not in h.ds:
+            # the program returned 0 but gave up on its results file half way (an HDF5 error during set-up is caught
+            # in main() and turned into an abort): nothing in such a file describes the run
+            ctx.violation("impl-oracle", "the results file of a run that exited with status 0 is incomplete (no /Info/Parameters or no time axis)",
+                          case=c.replay(), observed=(so + se)[-600:], sig=dict(kind="h5", clause="run"))
+            return
         d = hc.derive(P, c.currents)
         m1 = hc.run_model(model_text(c, d))
         tags = {i: [hc.pz(t) for t in m1[c.cid + ".sched"]["tags"][i]] for i in range(16)}
